@@ -12,6 +12,8 @@ def INCLUDE(name):
 
 def replay(ob):
     n = ob["name"]
+    if "ScatterAllDynamic.check_never_raises" in n:
+        return HEAD + "main(['scatter_dynamic_axis_range'])\n"
     if "optimize_ir.value_names_are_unique" in n:
         return HEAD + "main(['pipeline_names'])\n"
     if ".gather." in n:
